@@ -189,6 +189,13 @@ func (s *storeT) GetNode(ctx context.Context, name string) (n *types.Node, err e
 func (s *storeT) RemoveNode(ctx context.Context, node *types.Node) error {
 	return s.t.do(ctx, "CRemoveNode", fmt.Sprintf("(CRemoveNode %s)", str(node.Name)), true, func() error { return s.Store.RemoveNode(ctx, node) })
 }
+func (s *storeT) SetNodeStatus(ctx context.Context, node *types.Node, ttl int64) error {
+	// inside RemoveNode: SetNodeStatus(node, 90) before and SetNodeStatus(node, -1) after the store removal
+	if ttl < 0 {
+		return s.t.do(ctx, "CDelStatus", fmt.Sprintf("(CDelStatus %s)", str(node.Name)), true, func() error { return s.Store.SetNodeStatus(ctx, node, ttl) })
+	}
+	return s.t.do(ctx, "CSetStatus", fmt.Sprintf("(CSetStatus %s)", str(node.Name)), true, func() error { return s.Store.SetNodeStatus(ctx, node, ttl) })
+}
 func (s *storeT) ListNodeWorkloads(ctx context.Context, name string, labels map[string]string) (w []*types.Workload, err error) {
 	err = s.t.do(ctx, "CListNodeWls", fmt.Sprintf("(CListNodeWls %s)", str(name)), true, func() (e error) { w, e = s.Store.ListNodeWorkloads(ctx, name, labels); return })
 	return
@@ -726,14 +733,19 @@ func TestC22(t *testing.T) {
 	// corpus: the four witnesses
 	runCase(t, r, 1, []opSpec{{Kind: "add-node", A: "n", B: "p", Fault: nf, Pause: 2}, {Kind: "remove-pod", A: "p", Fault: nf, Pause: 64}}, map[string]any{"corpus": "addnode-removepod"})
 	runCase(t, r, 2, []opSpec{{Kind: "create", A: "n", Fault: nf, Pause: 6}, {Kind: "remove-node", A: "n", Fault: nf, Pause: 64}}, map[string]any{"corpus": "create-removenode"})
-	runCase(t, r, 2, []opSpec{{Kind: "remove-node", A: "n", Fault: 4, Pause: 64}}, map[string]any{"corpus": "removenode-plugin-fault"})
+	runCase(t, r, 2, []opSpec{{Kind: "remove-node", A: "n", Fault: 6, Pause: 64}}, map[string]any{"corpus": "removenode-plugin-fault"})
+	// every store / plugin call of RemoveNode with a single failure (0,1 GetNode; 2 ListNodeWorkloads; 3 SetNodeStatus(90);
+	// 4 store.RemoveNode; 5 SetNodeStatus(-1); 6 rmgr.RemoveNode): Ref is checked on the final snapshot
+	for f := 0; f <= 5; f++ {
+		runCase(t, r, 2, []opSpec{{Kind: "remove-node", A: "n", Fault: f, Pause: 64}}, map[string]any{"corpus": "removenode-every-fault"})
+	}
 	runCase(t, r, 2, []opSpec{{Kind: "remove-node", A: "n", Fault: nf, Pause: 1}, {Kind: "remove-node", A: "n", Fault: nf, Pause: 64},
 		{Kind: "add-node", A: "n", B: "p", Fault: nf, Pause: 1}}, map[string]any{"corpus": "stale-removenode"})
 	// pods whose nodes are all down / bypassed still have nodes: RemovePod must be refused
 	runCase(t, r, 5, []opSpec{{Kind: "remove-pod", A: "p", Fault: nf, Pause: 64}}, map[string]any{"corpus": "removepod-down-nodes"})
 	runCase(t, r, 6, []opSpec{{Kind: "remove-pod", A: "p", Fault: nf, Pause: 64}}, map[string]any{"corpus": "removepod-down-nodes"})
 	runCase(t, r, 6, []opSpec{{Kind: "remove-pod", A: "q", Fault: nf, Pause: 64}, {Kind: "remove-node", A: "m", Fault: nf, Pause: 64}}, map[string]any{"corpus": "removepod-down-nodes"})
-	emitted := 7
+	emitted := 13
 	gen := func() opSpec {
 		switch rng.Intn(8) {
 		case 0:
@@ -768,7 +780,7 @@ func TestC22(t *testing.T) {
 			}
 		}
 		if rng.Intn(3) == 0 {
-			ops[rng.Intn(k)].Fault = rng.Intn(6)
+			ops[rng.Intn(k)].Fault = rng.Intn(8)
 		}
 		if runCase(t, r, world, ops, nil) {
 			emitted++
